@@ -48,6 +48,9 @@ func runFaultFamily(s *Sim, prop string) {
 		AliasAtOpen: t.Bool("alias-at-open", 1, 2),
 		AliasInAck:  t.Bool("alias-in-ack", 1, 2),
 	}
+	// stream id aliases numbered from 0 on every connection: after a redial a stream may be given
+	// alias 0 although it had another one before, and a sibling the alias it had
+	bc.AliasFromZero = t.Bool("alias-from-zero", 1, 3)
 	// a long backlog of unacknowledged chunks (more than the 1024 the wire layer buffers per stream):
 	// everything the broker has not acknowledged must still be retransmitted after a resume
 	bulk := 0
